@@ -69,6 +69,7 @@ structure VoteSigned where
   votedHash : Bytes
   turnOffline : Bool
   upgrade : Nat
+deriving DecidableEq, Repr
 
 /-- `(*Vote).ToSignatureBytes` (types.go:706-716) -/
 def voteDataMsg (v : VoteSigned) : Msg :=
@@ -132,9 +133,54 @@ def emptyMsg (h : EmptyHdr) : Msg :=
   [(1, .bytes h.parentHash), (2, .int h.height), (3, .bytes h.root), (4, .bytes h.identityRoot),
    (5, .int (i64Enc h.time)), (6, .bytes h.blockSeed), (7, .int h.flags)]
 
+/-! ## block certificates: `FullBlockCert.Compress` (types.go:1009) and the re-expansion of `ValidateBlockCert`
+(blockchain.go:2428-2440) -/
+
+/-- a vote as it sits in a `FullBlockCert`: the signed header and the signature -/
+structure VoteM where
+  hdr : VoteSigned
+  signature : Bytes
+deriving DecidableEq, Repr
+
+/-- `types.BlockCertSignature`: the two per-vote signed flags travel next to every signature -/
+structure CertSig where
+  turnOffline : Bool
+  upgrade : Nat
+  signature : Bytes
+deriving DecidableEq, Repr
+
+/-- `types.BlockCert` -/
+structure CertM where
+  round : Nat
+  step : Nat
+  votedHash : Bytes
+  sigs : List CertSig
+deriving DecidableEq, Repr
+
+/-- `(*FullBlockCert).Compress`: round, step and voted hash from the FIRST vote, flags and signature from EACH vote;
+no votes ⇒ the zero certificate (zero hash = 32 zero bytes) -/
+def compress : List VoteM → CertM
+  | [] => ⟨0, 0, List.replicate 32 0, []⟩
+  | v :: vs => ⟨v.hdr.round, v.hdr.step, v.hdr.votedHash,
+      (v :: vs).map fun w => ⟨w.hdr.turnOffline, w.hdr.upgrade, w.signature⟩⟩
+
+/-- the votes `ValidateBlockCert` rebuilds from a certificate over the parent hash it knows -/
+def expand (parent : Bytes) (c : CertM) : List VoteM :=
+  c.sigs.map fun s => ⟨⟨c.round, c.step, parent, c.votedHash, s.turnOffline, s.upgrade⟩, s.signature⟩
+
+/-- `ProtoBlockCert` (`models.proto:81-92`) -/
+def certSigSchema : Schema := [(1, false, .int), (2, false, .int), (3, false, .bytes)]
+def certSchema : Schema := [(1, false, .int), (2, false, .int), (3, false, .bytes), (4, true, .msg certSigSchema)]
+
+/-- `(*BlockCert).ToProto` (types.go:965-979) -/
+def certMsg (c : CertM) : Msg :=
+  [(1, .int c.round), (2, .int c.step), (3, .bytes c.votedHash)] ++
+    c.sigs.map fun s => (4, Val.msg [(1, .int (b2n s.turnOffline)), (2, .int s.upgrade), (3, .bytes s.signature)])
+
 /-- the schemas the theorems of `Props/C18.lean` are stated for; the driver compares them with the regenerated ones -/
 def pinnedSchemas : List (String × Schema) :=
   [("ProtoTransaction.Data", txDataSchema), ("ProtoTransaction", txSchema), ("ProtoVote.Data", voteDataSchema),
-   ("ProtoBlockHeader.Proposed", proposedSchema), ("ProtoBlockHeader.Empty", emptySchema)]
+   ("ProtoBlockHeader.Proposed", proposedSchema), ("ProtoBlockHeader.Empty", emptySchema),
+   ("ProtoBlockCert", certSchema)]
 
 end IdenaModel.Codec
